@@ -129,7 +129,7 @@ def r_variant_tree(model, rep):
         if ok:
             # the uid list: '%s-%s' % (self.uid, i) for i in sorted(data['variants']), when the key is present
             ok = False
-            for a in (it[1] if it[0] == "phi" else (it,)):
+            for a in T.alts(it):
                 for c in facts.collections_of(cx, a):
                     if c.kind == "list" and len(c.gens) == 1 and not c.conds and c.elt == T.fmt(("attr", S, "uid"), "-", c.els[0]) \
                             and c.its[0] == ("call", ("global", "sorted"), (("sub", dat, ("const", "variants")),), ()):
@@ -156,7 +156,10 @@ def r_variant_tree(model, rep):
            and facts.active_at(ev, V) and ev.loops]
     ok, msg = len(app) == 1, "top-level variant selection changed"
     if ok:
-        ng = facts.non_gate_guards(app[0])
+        # (a condition that is itself chosen by the format version - a predicate helper with a legacy branch - is what it says
+        # for the current version)
+        ng = [g for g in [(facts.pick_at_version(g0[0], V), g0[1]) for g0 in app[0].guards if g0[0][0] != "exc"]
+              if not facts.is_pure_gate(g[0])]
         uid = app[0].value[2][0]
         ngc = [facts.canon_guard_pair(g) for g in ng]      # (``if uid in children: continue`` and ``if uid not in children:`` alike)
         if not ngc:
